@@ -35,7 +35,7 @@ for c in checks:
 claimed = {c["property_id"] for c in checks}
 na = [{"property_id": pid, "reason": base["na_reasons"].get(pid, base["na_default"])}
       for pid in ids if pid not in claimed]
-setup = "cd lean && lake build " + " ".join(targets) if targets else base["setup_cmd"]
+setup = ("/venv/bin/python tools/regen_all.py && cd lean && lake build " + " ".join(targets)) if targets else base["setup_cmd"]
 m = {"version": 1, "setup_cmd": setup, "hooks": base["hooks"], "engines": base["engines"],
      "checks": checks, "not_applicable": na, "notes": base["notes"]}
 json.dump(m, open(f"{root}/MANIFEST.json", "w"), indent=1)
